@@ -772,6 +772,37 @@ impl Store {
                     std::thread::sleep(std::time::Duration::from_millis(5));
                 }
             }
+            ["cfgcheck", toks @ ..] => {
+                // the same configuration built twice: from its serialised form (as every other request does) and with the
+                // builder methods on top of a configuration that only carries the sync strategy and the merge policy (their
+                // types are not nameable from outside the crate); the two must be the same configuration
+                let all = make_config(&cfg_json(toks)?, &self.dir).ok()?;
+                let base: Vec<&str> = toks.iter().copied().filter(|t| t.starts_with("sync=") || t.starts_with("policy=")).collect();
+                let mut b = make_config(&cfg_json(&base)?, &self.dir).ok()?;
+                let r = catch_unwind(AssertUnwindSafe(|| {
+                    for t in toks {
+                        let Some((k, v)) = t.split_once('=') else { continue };
+                        match k {
+                            "mfs" => { b.max_file_size(v.parse().unwrap()); }
+                            "cache" => { b.readers_cache_size(v.parse().unwrap()); }
+                            "pool" => { b.concurrency(v.parse().unwrap()); }
+                            "frag" => { b.merge_threshold_fragmentation(frac(v).unwrap()); }
+                            "dead" => { b.merge_threshold_dead_bytes(v.parse().unwrap()); }
+                            "small" => { b.merge_threshold_small_file(v.parse().unwrap()); }
+                            "interval" => { b.merge_check_interval_ms(v.parse().unwrap()); }
+                            "jitter" => { b.merge_check_jitter(frac(v).unwrap()); }
+                            "tfrag" => { b.merge_trigger_fragmentation(frac(v).unwrap()); }
+                            "tdead" => { b.merge_trigger_dead_bytes(v.parse().unwrap()); }
+                            _ => {}
+                        }
+                    }
+                }));
+                if r.is_err() {
+                    return Some("builder-panic".into());
+                }
+                let (sa, sb) = (format!("{:?}", all), format!("{:?}", b));
+                Some(if sa == sb { "same".into() } else { format!("differ serialised={} builder={}", sa, sb) })
+            }
             ["mkfile", name] => {
                 // an (empty) file that does not belong there, e.g. `mkfile d1` = 1.bitcask.data
                 let f = self.dir.join(long_name(name)?);
